@@ -66,7 +66,7 @@ class World:
                 else:
                     ops.append(['writeline'] if kind == 'string' else ['comm'])
             callers.append(ops)
-        fault = rng.choice(['none', 'none', 'late-reply', 'garbage', 'silence', 'disconnect', 'disconnect-refuse', 'trailing-extra'])
+        fault = rng.choice(['none', 'none', 'late-reply', 'garbage', 'silence', 'disconnect', 'disconnect-refuse', 'trailing-extra', 'disconnect-idle'])
         scen = {'kind': kind, 'callers': callers, 'delay': rng.choice([0.0, 0.01, 0.3]), 'chunk': rng.choice([None, None, 1, 3]), 'fault': fault,
                 'fault_at': rng.randint(0, 4), 'refuse': rng.choice([0, 1, 3]), 'devseed': rng.randrange(1 << 20)}
         # line terminator of the device (multi-byte terminators may be cut by the chunking: 'eol' = cut inside it)
@@ -187,6 +187,15 @@ class World:
                         sock.peer_send(extra)
                         dev['stale'].append((s.now, extra))
                         continue
+                    if fault == 'disconnect-idle' and n > scen['fault_at'] and not dev['dropped']:
+                        # the device answers this command and closes the connection a little later, while nobody talks to it
+                        sock.peer_send(reply)
+                        D.vsleep(0.2)
+                        dev['dropped'] = s.now
+                        dev['dropped_idle'] = True
+                        dev['timeline'].append(('drop',))
+                        sock.peer_close()
+                        return
                     if scen['chunk'] == 'eol':
                         # every terminator is cut in two
                         pieces = reply.split(eolb)
@@ -315,6 +324,17 @@ class World:
                 info['final'] = (tok, rep)
             except Exception as e:
                 info['final_error'] = (type(e).__name__, str(e)[:100])
+                if scen['fault'] == 'disconnect-idle':
+                    # the loss of an idle connection is noticed by this very call: healing is judged on a second one
+                    info['first_probe_error'] = info.pop('final_error')
+                    D.vsleep(10)
+                    info['connected_at_end'] = bool(io.is_connected)
+                    try:
+                        tok = mktok(8)
+                        rep = io.communicate(tok) if scen['kind'] == 'string' else io.communicate(tok, 8)
+                        info['final'] = (tok, rep)
+                    except Exception as e2:
+                        info['final_error'] = (type(e2).__name__, str(e2)[:100])
             node.secnode.shutdown_modules()
         s = D.Sched(strategy, seed, horizon=400, grace=10, max_steps=400000)
         s.run(root, wall_timeout=90)
@@ -391,7 +411,7 @@ class World:
         if s.escaped:
             r.violation('C16/exception-escapes-thread', f'{s.escaped[0][:2]}', dict(case, traceback=s.escaped[0][2]))
             return
-        faulty = scen['fault'] in ('silence', 'disconnect', 'disconnect-refuse', 'late-reply')
+        faulty = scen['fault'] in ('silence', 'disconnect', 'disconnect-refuse', 'late-reply', 'disconnect-idle')
         cmdtime = cmdtime_final(dev, scen)
         for key, rec_ in sorted(results.items()):
             r.count('calls_checked')
@@ -455,7 +475,9 @@ class World:
                         r.violation('C16/call-exceeds-timeout', f'{key}: returned {waited:.2f} s after its command reached the device (bound {bound:.2f})', case)
                         return
         # ---- connection state and self healing
-        if scen['fault'] in ('disconnect', 'disconnect-refuse') and dev['dropped']:
+        if scen['fault'] in ('disconnect', 'disconnect-refuse', 'disconnect-idle') and dev['dropped']:
+            if dev.get('dropped_idle'):
+                r.count('idle_disconnects')
             r.count('reconnects_checked')
             if dev.get('dropped_inside'):
                 r.count('drops_inside_a_variable_length_reply')
